@@ -363,3 +363,26 @@ def check_line_graph_prefilter(ctx, res, dotted="projections.line_graph", rule="
                 res.add(rule, f, norm(cond)[:120], "keeps-len>=s", worst, why, loc(v.fi, comp))
     if not found:
         res.ok(rule, f, "no size pre-filter", "keeps-len>=s", loc(v.fi, v.fi.node))
+    # ---- the VERTEX population is every hyperedge: a pre-filter may thin out what is compared, never what gets a vertex / an id
+    id_loops = []
+    for lp in walk_no_nested(v.fi.node):
+        if isinstance(lp, ast.For) and isinstance(lp.iter, (ast.Name, ast.Call)):
+            tv = {x.id for x in ast.walk(lp.target) if isinstance(x, ast.Name)}
+            stores = [st for st in ast.walk(lp) if isinstance(st, ast.Assign) and isinstance(st.targets[0], ast.Subscript) and isinstance(st.targets[0].value, ast.Name) and (({x.id for x in ast.walk(st.targets[0].slice) if isinstance(x, ast.Name)} & tv) or ({x.id for x in ast.walk(st.value) if isinstance(x, ast.Name)} & tv))]
+            if stores and any("id" in st.targets[0].value.id for st in stores):
+                id_loops.append(lp)
+    for lp in id_loops:
+        it = lp.iter
+        if isinstance(it, ast.Call) and isinstance(it.func, ast.Name) and it.func.id == "enumerate" and it.args:
+            it = it.args[0]
+        if not isinstance(it, ast.Name):
+            continue
+        defs = [a for a in walk_no_nested(v.fi.node) if isinstance(a, ast.Assign) and len(a.targets) == 1 and isinstance(a.targets[0], ast.Name) and a.targets[0].id == it.id]
+        lid = v.cfg.by_ast.get(id(lp))
+        filt = [a for a in defs if isinstance(a.value, (ast.ListComp, ast.SetComp, ast.GeneratorExp)) and any(g.ifs for g in a.value.generators) and v.cfg_id(a) is not None and lid is not None and v.cfg.reachable(v.cfg_id(a), lid)]
+        filt += [a for a in defs if isinstance(a.value, ast.Call) and isinstance(a.value.func, ast.Name) and a.value.func.id == "filter" and v.cfg_id(a) is not None and lid is not None and v.cfg.reachable(v.cfg_id(a), lid)]
+        if filt:
+            cond = filt[0].value.generators[0].ifs[0] if not isinstance(filt[0].value, ast.Call) else filt[0].value
+            res.violation(rule, f, norm(filt[0])[:110], "vertex-population", f"the hyperedges that receive a vertex id are filtered (`{norm(cond)[:50]}`) before the ids are assigned: a hyperedge that fails the filter has no vertex in the line graph, so it gets no centrality value at all (and the normalisation of the others changes) - the s-line graph has one vertex per hyperedge whatever its size", loc(v.fi, filt[0]))
+        else:
+            res.ok(rule, f, norm(lp.iter)[:80], "vertex-population", loc(v.fi, lp))
